@@ -6,6 +6,7 @@ import (
 	"testing"
 
 	"verifsim/core"
+	_ "verifsim/sims/nqsim"
 	_ "verifsim/sims/queuesim"
 )
 
